@@ -68,6 +68,11 @@ def corpus_scripts(chk, quick):
             scripts.append(L)
     rng = chk.rng('ro-cgen')
     gen = [CG.c_unit(rng)[1].replace('@N@', 'g%d' % i) for i in range(60 if quick else 1500)]
+    # units of declaration histories (tools/gen_c17_decl.py): redeclarations make the checker build composite types and
+    # complete recorded ones in place -- stores that could land in a shared static type object
+    import gen_c17_decl as DCL
+    rng2 = chk.rng('ro-redecl')
+    gen += [DCL.c_redecl_unit(rng2)[1].replace('@N@', 'r%d' % i) for i in range(24 if quick else 500)]
     pack(gen)
     files = []
     for f in sorted(glob.glob(os.path.join(vlib.REPO, 'c-tests', '*', '*.c'))):
